@@ -135,7 +135,7 @@ def r182(ctx) -> None:
         raise AnchorError('LiteralString.parse vanished')
     lits = [v for _, v in local_assigns(f, 'literal') if v is not None]
     forms = {txt(v) for v in lits}
-    R.check(len(lits) >= 2 and len(forms) == 1, f, f.node,
+    R.check(len(lits) >= 1 and len(forms) == 1, f, f.node,
             'both literal branches extract the value identically',
             f'the {{n+}} and {{n}} branches extract the literal with '
             f'different expressions {sorted(forms)}: the same bytes parse to '
